@@ -180,7 +180,9 @@ func (p *Provider) Execute(ctx context.Context, name string, args []interface{})
 }
 
 func (p *Provider) process(c call) (rv returnValue) {
-	index, name, args := c.Value()
+	var index int
+	var name string
+	var args []interface{}
 	defer func() {
 		if e := recover(); e != nil {
 			err := core.NewPanicError(e)
@@ -191,6 +193,7 @@ func (p *Provider) process(c call) (rv returnValue) {
 			}
 		}
 	}()
+	index, name, args = c.Value()
 	method := p.Get(name)
 	if method == nil {
 		return newReturnValue(index, nil, "Can't find this method "+name+"().")
@@ -207,6 +210,10 @@ func (p *Provider) process(c call) (rv returnValue) {
 			}
 		} else {
 			copy(paramTypes, parameters)
+		}
+		if count > len(parameters) && !method.Func().Type().IsVariadic() {
+			paramTypes = paramTypes[:len(parameters)] // surplus arguments are dropped, as by the service
+			args = args[:len(parameters)]
 		}
 		for i, t := range paramTypes {
 			if arg, err := io.Convert(args[i], t); err != nil {
@@ -245,7 +252,14 @@ func (p *Provider) dispatch(calls []call) {
 		}(i)
 	}
 	wg.Wait()
-	for {
+	// a result the codec refuses must fail its own call, not keep the whole batch from ever
+	// being reported: every result is tried on its own first
+	for i := range results {
+		if _, err := p.client.Codec.Encode("=", []interface{}{[]returnValue{results[i]}}, core.NewClientContext()); err != nil {
+			results[i] = newReturnValue(results[i].Index(), nil, err.Error())
+		}
+	}
+	for atomic.LoadInt32(&p.closed) == 0 {
 		if err := p.proxy.end(results); err != nil {
 			if !core.IsTimeoutError(err) {
 				if p.RetryInterval != 0 {
